@@ -61,6 +61,14 @@ impl Vm {
     }
 }
 
+/// Vector Constructor
+///
+/// The `vector` procedure as a value the compiler can embed in bytecode
+/// (used by vector quasiquote templates), independent of the global binding.
+pub(crate) fn vector_constructor() -> VCell {
+    VCell::builtin("vector", vector::vector)
+}
+
 /// Pop Argc
 ///
 /// Pop the number of arguments applied to a procedure off the top of
